@@ -693,7 +693,7 @@ func head(v []uint64) []uint64 {
 	return v
 }
 
-var propBGVShares = h.NewProp("TestPropBGVShares", h.Budget{Quick: 500, Thorough: 2500}, genBGVShares, runBGVShares)
+var propBGVShares = h.NewProp("TestPropBGVShares", h.Budget{Quick: 500, Thorough: 4000}, genBGVShares, runBGVShares)
 
 func TestPropBGVShares(t *testing.T) { propBGVShares.Check(t) }
 
@@ -1059,6 +1059,6 @@ func runBGVRefresh(c BGVCase, rec *h.Rec) error {
 	return nil
 }
 
-var propBGVRefresh = h.NewProp("TestPropBGVRefresh", h.Budget{Quick: 800, Thorough: 4000}, genBGVRefresh, runBGVRefresh)
+var propBGVRefresh = h.NewProp("TestPropBGVRefresh", h.Budget{Quick: 800, Thorough: 6000}, genBGVRefresh, runBGVRefresh)
 
 func TestPropBGVRefresh(t *testing.T) { propBGVRefresh.Check(t) }
